@@ -6,7 +6,7 @@ history is checked against conditions (a)-(f) of DESIGN.md section 5/C05."""
 from .common import Model, Rec, RefSched, SystemNotFoundError, gen_prio, gen_window, spec_defaults
 
 PROPERTY = "C05"
-QUICK_RUNS = 40000
+QUICK_RUNS = 24000
 CHUNK = 500
 RULE = ("seeded re-entrancy schedules: 2-8 recording systems, 1-4 actor scripts (actor, timestep, actions in "
         "{remove self via clean_up, remove earlier/later system, register higher/equal/lower priority system, "
